@@ -7,6 +7,8 @@ import Pyrtma.Proofs.ManagerSimConn
 import Pyrtma.Proofs.ManagerSimOwedDep
 import Pyrtma.Proofs.ManagerSimOwedSeg
 import Pyrtma.Proofs.ManagerSimOwedRun
+import Pyrtma.Proofs.ManagerSimDrv
+import Pyrtma.Proofs.ManagerStatsRun
 /-!
 # C14 — undeliverable messages are reported, not silently lost
 
@@ -14,8 +16,11 @@ Theorems about one iteration of `forward_message`'s recipient loop (`deliverOne`
 `forward_message`, `send_to_loggers` and `send_ack` (`trySend`) and about `send_failed_message` (`failedMsg`), for every
 state, frame, writable set, set of failing sockets and every nested forward `fwd`.
 
-Refinement link, partial — what is missing is the C14 clause of `checkDepartures` on the stretch before the first read
-of a round (the accept branch) and the assembly over a whole run (`Spec.NoErr "C14" (runSpec …)`):
+Refinement link: `model_meets_spec_c14_partial` — no C14 entry in `Spec.runSpec` on the model's own run, for every
+history, for configurations that do not forward INFO log lines (`20 < cfg.logLevel`; default 100) — and
+`model_meets_spec_partial`, all eight manager properties in one statement under the same hypothesis.  Without that
+hypothesis everything is linked except the C14 clause of `checkDepartures` on the stretch before the first read of a round
+(the accept branch), where the clause as written is too strict (report, `defect_2`).  The pieces:
 `spec_frame_loop_adds_no_c14_on_model` (the Spec's loop over the frames of a round adds no C14 entry),
 `spec_segment_adds_no_c14_on_model` (`Spec.segment` adds no C14 entry on the events of any frame the model reads in a
 simulated state: the counted lower bounds of `checkData` and of `checkDepartures`, every branch; model-level cores
@@ -322,7 +327,7 @@ of `Spec.segment` the state `X` that `checkDepartures` is evaluated on stands in
 theorem spec_departure_count_clause_passes_on_frame (cfg : Cfg) (ok : CfgOK cfg) (hfuel : cfg.fuel = 0) (hperm : OrdPerm cfg)
     {s : State} (h : Top cfg s) (rd : Read) (q : Bool) (evs : List Ev)
     (he : (if q then ticks cfg (readOne cfg s rd) else readOne cfg s rd).out = s.out ++ Ev.rd rd.uid :: evs)
-    {A2 X : Spec.A} (hs : Sim cfg A2 (if q then ticks cfg (readOne cfg s rd) else readOne cfg s rd))
+    {A2 X : Spec.A} (hs : SimM cfg A2 (if q then ticks cfg (readOne cfg s rd) else readOne cfg s rd))
     (hXm : (Spec.applyDepartures X evs).mods = A2.mods) (hXw : X.w = A2.w) (hXf : X.fail = A2.fail) (md : Option Nat) :
     Spec.ErrExt ["C07"] X (Spec.checkDepartures cfg X md evs) := by
   refine depCount_frame ok hfuel hperm h rd ?_ evs he hs hXm hXw hXf md
@@ -402,5 +407,59 @@ theorem model_meets_spec_c14_partial (cfg : Cfg) (ok : CfgOK cfg) (hfuel : cfg.f
 /-- non-vacuity: the default configuration satisfies every side condition -/
 example : CfgOK ({} : Cfg) ∧ ({} : Cfg).fuel = 0 ∧ ({} : Cfg).mtClosed ≠ ({} : Cfg).allTypes ∧ 20 < ({} : Cfg).logLevel := by
   refine ⟨⟨by decide, by decide, by decide, fun _ _ h => h⟩, rfl, by decide, by decide⟩
+
+/-! ### All eight manager properties in one statement -/
+
+/-- **PARTIAL (log level above INFO) — the model meets the Spec: all eight manager properties.**  Run the model on a
+history, hand `Spec.runSpec` the history and the events the model wrote: the verdict has no entry for any of
+C01 C03 C05 C06 C07 C14 C18 C19.  The side conditions are those of the two proof families together
+(`ManagerSim*`: `CfgOK`, automatic fuel, the iteration order a permutation, CLIENT_CLOSED is not the ALL sentinel,
+well-formed rounds, frames numbered in processing order — for C05; `ManagerStats*`, C18: no manager type is the ALL
+sentinel, a traffic table, -1 is no manager type, fewer than 65536 manager frames of one type in the run; its
+`OrderGood` and `RoundOK` follow from `OrdPerm` and `RoundsWF`), plus `20 < cfg.logLevel` for C14 alone
+(`model_meets_spec_c14_partial`). -/
+theorem model_meets_spec_partial (cfg : Cfg) (ok : CfgOK cfg) (hfuel : cfg.fuel = 0) (hperm : OrdPerm cfg)
+    (hmt : cfg.mtClosed ≠ cfg.allTypes) (hlog : 20 < cfg.logLevel)
+    (hna : MgrNotAll cfg) (hsz : 0 < cfg.trafficSize) (hneg : mgrType cfg (-1) = false)
+    (rs : List Round) (hwf : RoundsWF rs) (hinc : IncRounds 0 rs) (hnw : NoWrap cfg (mrPair cfg rs).1.hist) :
+    ∀ p ∈ Spec.props, (Spec.runSpec cfg rs (Pyrtma.Drv.Manager.modelRun cfg rs).1 none).errs.filter (·.1 == p) = [] := by
+  intro p hp
+  simp only [Spec.props, List.mem_cons, List.not_mem_nil, or_false] at hp
+  have six : ∀ q ∈ proven,
+      (Spec.runSpec cfg rs (Pyrtma.Drv.Manager.modelRun cfg rs).1 none).errs.filter (·.1 == q) = [] :=
+    fun q hq => spec_passes_on_model ok hfuel hperm hmt rs hwf q hq (fun _ => hinc)
+  rcases hp with rfl | rfl | rfl | rfl | rfl | rfl | rfl | rfl
+  · exact six _ (by simp [proven])
+  · exact six _ (by simp [proven])
+  · exact six _ (by simp [proven])
+  · exact six _ (by simp [proven])
+  · exact six _ (by simp [proven])
+  · rw [(modelRun_obsM cfg rs).1]
+    exact (Spec.noErr_iff_filter "C14" _).mp (model_meets_spec_c14_partial cfg ok hfuel hperm hmt hlog rs hwf)
+  · have hord : OrderGood cfg := fun l hl => ⟨(hperm l).nodup_iff.mpr hl, fun x => (hperm l).mem_iff⟩
+    exact runSpec_e18 ok hfuel hna hord hsz hneg rs (fun r hr => hwf r hr) hnw
+  · exact six _ (by simp [proven])
+
+/-- non-vacuity: the hypotheses of `model_meets_spec_partial` hold together — default configuration, a history in which
+    three clients connect, subscribe (2 to CLIENT_CLOSED, 3 to FAILED_MESSAGE) and publish, and client 1's socket breaks -/
+def exAll : List Round :=
+  [{ accept := true }, { accept := true }, { accept := true },
+   { reads := [{ uid := 1, h := { k := 1, mtype := 13, src := 10 } }, { uid := 2, h := { k := 2, mtype := 13, src := 11 } },
+               { uid := 3, h := { k := 3, mtype := 13, src := 12 } }], writable := [1, 2, 3] },
+   { reads := [{ uid := 1, h := { k := 4, mtype := 15, nbytes := 4 }, avail := 4, pay := [136, 19, 0, 0] },
+               { uid := 2, h := { k := 5, mtype := 15, nbytes := 4 }, avail := 4, pay := [33, 0, 0, 0] },
+               { uid := 3, h := { k := 6, mtype := 15, nbytes := 4 }, avail := 4, pay := [8, 0, 0, 0] }], writable := [1, 2, 3] },
+   { failSet := [(1, some .hdr)], reads := [{ uid := 2, h := { k := 7, mtype := 5000 } }], writable := [1, 3] }]
+example : ∀ p ∈ Spec.props,
+    (Spec.runSpec {} exAll (Pyrtma.Drv.Manager.modelRun {} exAll).1 none).errs.filter (·.1 == p) = [] := by
+  refine model_meets_spec_partial {} ⟨by decide, by decide, by decide, fun _ _ h => h⟩ rfl (fun l => List.Perm.refl l)
+    (by decide) (by decide) ?_ (by decide) (by decide) exAll (by unfold RoundsWF RoundWF; decide) ?_ ?_
+  · intro t ht e
+    subst e
+    revert ht; decide
+  · simp [IncRounds, IncFrom, lastBound, exAll]
+  · intro t _
+    have : (mrPair {} exAll).1.hist.length < 100 := by decide
+    exact Nat.lt_of_le_of_lt List.count_le_length (by omega)
 
 end Pyrtma.C14
